@@ -60,13 +60,17 @@ def fresh_solo_tables():
 
 def run(tier, t0, only=None):
     import os
-    res, info = run_wf("C12", tier, only=only)
+    from concurrent.futures import ThreadPoolExecutor
     path, solo = fresh_solo_tables()
     if path:
         os.environ["VQ_SOLO"] = path
-    res.append(solo)
     js = [j for j in jobs(tier) if not only or only in j.name]
-    res += run_jobs(js)
+    with ThreadPoolExecutor(2) as ex:
+        f1 = ex.submit(run_wf, "C12", tier, None, (2024, 2), True, None, only)
+        f2 = ex.submit(run_jobs, js, 6)
+        res, info = f1.result()
+        res += f2.result()
+    res.append(solo)
     if path:
         os.remove(path)
     return finish(
